@@ -152,7 +152,13 @@ func (g *docgen) text() {
 
 func (g *docgen) comment() {
 	t := g.t
-	switch rapid.IntRange(0, 4).Draw(t, "ckind") {
+	switch rapid.IntRange(0, 5).Draw(t, "ckind") {
+	case 5:
+		// <!--> and <!---> are complete (empty) comments
+		g.add(tok{html.CommentToken, rapid.SampledFrom([]string{"<!-->", "<!--->", "<!---->", "<!----->"}).Draw(t, "abrupt"), "", noVal, false})
+		if d := g.toks[len(g.toks)-1].data; len(d) > 6 {
+			g.toks[len(g.toks)-1].text = d[4 : len(d)-3]
+		}
 	case 0, 1:
 		var sb strings.Builder
 		for k := rapid.IntRange(0, 4).Draw(t, "cn"); k > 0; k-- {
@@ -375,12 +381,20 @@ func (g *docgen) startTag() {
 	g.last = "tag"
 }
 
-func (g *docgen) endTag(n string) {
+func (g *docgen) endTag(n string) { g.endTagGlue(n, true) }
+
+// endTagGlue: glue says whether a template region may stand directly behind the name (not for the end tag of a raw text
+// element: there the name must be complete)
+func (g *docgen) endTagGlue(n string, glue bool) {
 	t := g.t
 	if g.tmpl[0] != "" && rapid.IntRange(0, 5).Draw(t, "endtagregion") == 0 {
 		// a region behind the name (Text() is the name and what follows it, without trailing whitespace)
 		r := g.region()
-		g.add(tok{html.EndTagToken, "</" + lower(n) + " " + r + wsp(t, 0) + ">", lower(n) + " " + r, noVal, true})
+		sp := rapid.SampledFrom([]string{" ", " ", ""}).Draw(t, "endtagregionsep") // (directly behind the name: the region keeps its case)
+		if !glue {
+			sp = " "
+		}
+		g.add(tok{html.EndTagToken, "</" + lower(n) + sp + r + wsp(t, 0) + ">", lower(n) + sp + r, noVal, true})
 		g.classes["endtag"]++
 		g.last = "tag"
 		return
@@ -410,6 +424,12 @@ func (g *docgen) rawElement() {
 				continue
 			}
 			// script double escape: inside <!-- ... -->, </script> after <script does not end the element
+			if rapid.IntRange(0, 5).Draw(t, "escabrupt") == 0 {
+				// <!--> and <!---> open and close the escape at once: what follows is ordinary script text
+				sb.WriteString("\x02" + rapid.SampledFrom([]string{">", "->"}).Draw(t, "escabruptend") + " <" + randCase(t, "script") + "> ")
+				g.classes["script-escape-abrupt"]++
+				continue
+			}
 			sb.WriteString("\x02") // placeholder for "<!--", restored after stray openers have been defused
 			in := false
 			for j := rapid.IntRange(0, 4).Draw(t, "escn"); j > 0; j-- {
@@ -467,7 +487,7 @@ func (g *docgen) rawElement() {
 		g.add(tok{html.TextToken, content, content, noVal, hasTmpl})
 	}
 	_ = wn
-	g.endTag(wn)
+	g.endTagGlue(wn, false)
 	g.classes["raw-"+n]++
 	g.last = "tag"
 }
@@ -512,6 +532,8 @@ func (g *docgen) foreignContent(n, other string, depth int, hasTmpl *bool) strin
 			// quotes in text content are text; quotes of either kind delimit attribute values inside tags only
 			"5\" pipe", "it's", "\"", "'", "<text>say \"hi</text>", "<a x='</" + n + ">' y=\"'\"/>", "<b q='\"'>", "<c\nq = \">\" r='>'>",
 			"<!-- </" + n + "> \" ' -->", "<![CDATA[ </" + n + "> \" ' < ]]>", "<!---->", "<" + n + "x>", "<" + n + "s a='b'>", "<g a=b/>", "<g a=/>",
+			// end tags whose name goes on are not the end tag of the element; comments may end in --!> and be empty (<!-->)
+			"</" + n + ":g>", "<" + n + ":g></" + n + ":g>", "</" + n + "-icon>", "</" + n + "1>", "</" + strings.ToUpper(n) + "_>", "<!-- </" + n + "> --!>", "<!-->", "<!--->", "COMMENTREGION", "CDATAREGION",
 			"NESTED", "NESTED", "SELFCLOSED", "REGION"}).Draw(t, "fpart")
 		switch p {
 		case "NESTED":
@@ -531,6 +553,16 @@ func (g *docgen) foreignContent(n, other string, depth int, hasTmpl *bool) strin
 		case "REGION":
 			if g.tmpl[0] != "" {
 				sb.WriteString(g.region())
+				*hasTmpl = true
+			}
+		case "COMMENTREGION":
+			if g.tmpl[0] != "" {
+				sb.WriteString("<!-- c " + g.region() + " -->")
+				*hasTmpl = true
+			}
+		case "CDATAREGION":
+			if g.tmpl[0] != "" {
+				sb.WriteString("<![CDATA[ d " + g.region() + " ]]>")
 				*hasTmpl = true
 			}
 		default:
@@ -616,10 +648,15 @@ func genDoc(t *rapid.T, tmpl [2]string) *docgen {
 		g.add(tok{html.StartTagToken, "<plaintext", "plaintext", noVal, false})
 		g.closer(false, false)
 		rest := rapid.SampledFrom([]string{"x", "</plaintext>", "<b>y</b>", "a </plaintext> b <!-- c"}).Draw(t, "rest")
+		restTmpl := false
 		if tmpl[0] != "" {
 			rest = strings.ReplaceAll(rest, tmpl[0], "")
+			if rapid.Bool().Draw(t, "plaintextregion") {
+				rest += g.region() + " z"
+				restTmpl = true
+			}
 		}
-		g.add(tok{html.TextToken, rest, rest, noVal, false})
+		g.add(tok{html.TextToken, rest, rest, noVal, restTmpl})
 		g.classes["raw-plaintext"]++
 	}
 	return g
@@ -649,6 +686,11 @@ func (g *docgen) upcase() string {
 			nameEnd := 2 + len(k.text)
 			if j := strings.IndexByte(k.text, ' '); j >= 0 {
 				nameEnd = 2 + j // a template region follows the name
+			}
+			if g.tmpl[0] != "" {
+				if j := strings.Index(k.text, g.tmpl[0]); j >= 0 && 2+j < nameEnd {
+					nameEnd = 2 + j // directly behind the name
+				}
 			}
 			d = "</" + randCase(t, d[2:nameEnd]) + d[nameEnd:]
 		case html.AttributeToken:
